@@ -44,7 +44,9 @@ class RarSetup:
         eq_type = {'ode': 'ODE', 'statio': 'statio_PDE', 'nonstatio': 'nonstatio_PDE'}[kind]
         self.eq_type = eq_type
         if system:
-            self.S = SystemLoss(self.E, eq_type, 'PINN', d=d, terms=('dyn',), unknowns=('a',), equations=('e1', 'e2'))
+            # (the non-stationary branch reshapes the residuals to (candidate times, candidate points): scalar residuals only)
+            self.S = SystemLoss(self.E, eq_type, 'PINN', d=d, terms=('dyn',), unknowns=('a',), equations=('e1', 'e2'),
+                                m_res=({'e1': 1, 'e2': 1} if kind == 'nonstatio' else None))
             self.params = self.S.params
         else:
             # the non-stationary branch reshapes the residuals to (candidate times, candidate points): scalar residuals only
